@@ -253,9 +253,12 @@ def run(tier, seed):
         dist["bounded"] += int(c["lo"] is not None or c["hi"] is not None)
         dist["randomized"] += int(c["randomize"])
         nref = sum(1 for t, a, b in o["glog"] if t == 4) - 0
-        want_rng = [("uniform", 0.5, 1.5)] if c["randomize"] else []
-        if o["rng"] != want_rng:
-            violations.append(Violation("factor-draws", f"{c['integ']}: random numbers requested during one trajectory: {o['rng']}, expected {want_rng}", {"case": c}))
+        # the statement: the randomisation factor is read once per trajectory (none without randomisation); through which
+        # generator method, and with which bounds before scaling, is the tie's business
+        want_n = 1 if c["randomize"] else 0
+        if len(o["rng"]) != want_n:
+            violations.append(Violation("factor-draws", f"{c['integ']}: {len(o['rng'])} random numbers requested during one trajectory ({o['rng']}), the step-size factor is read "
+                                        f"{'once' if want_n else 'not at all'}", {"case": c}))
         if o["mutated"]:
             violations.append(Violation("state-mutated", f"{c['integ']}: current_model/current_momentum were modified by the integrator", {"case": c}))
         if c["steps"] >= 2 and (c["lo"] is not None or c["hi"] is not None or c["randomize"]):
